@@ -351,7 +351,7 @@ package protocol
 //@   mode int
 //@   noframe
 //@   preserves PacketUnderlay.baseUnderlay.isClient, ghost(wr), ghost(dsent)
-//@   requires u != nil
+//@   requires u != nil && len(encryptedMeta) >= 24
 //@   ensures err == nil ==> b != nil
 //@
 //@ // TCP receive path (C05, C06): same fingerprint rule; nothing is written to the
@@ -376,7 +376,7 @@ package protocol
 //@   mode int
 //@   noframe
 //@   preserves ghost(wr), ghost(dsent), StreamUnderlay.send, StreamUnderlay.baseUnderlay.isClient
-//@   requires t != nil
+//@   requires t != nil && len(encryptedMeta) >= 24
 //@   ensures err == nil ==> t.recv != nil && old(t.recv) == nil
 //@   ensures err != nil ==> t.recv == nil || t.recv == old(t.recv)
 //@
